@@ -1,5 +1,16 @@
 package check
 
+import "bngvc/govc"
+
+// notDerivedKeyEnsures keeps every obligation except the functional postconditions of the
+// IPv4 key derivations, which are claimed (and recorded as known findings) under C06.
+func notDerivedKeyEnsures(o *govc.Oblig) bool {
+	if o.Kind == "ensures" && (o.Func == "ebpf.IPToUint32" || o.Func == "nat.ipToKey") {
+		return false
+	}
+	return true
+}
+
 func init() {
 	register(&PropDef{
 		ID:    "C02",
@@ -19,7 +30,10 @@ func init() {
 			"dhcpv6.PrefixPool.Allocate", "dhcpv6.PrefixPool.Release",
 			"dhcpv6.Server.releaseAddress", "dhcpv6.Server.releasePrefix", "dhcpv6.Message.GetOption",
 			"dhcpv6.Server.endBinding", "dhcpv6.Server.handleRelease", "dhcpv6.Server.handleDecline",
+			"dhcpv6.Server.buildReply", "dhcpv6.Server.buildAdvertise",
 		},
+		// the byte-order postconditions of the key derivations belong to C06's claim
+		Select: notDerivedKeyEnsures,
 		Trusted: []string{
 			"ebpf.Loader.CheckCircuitIDCollision, qos.Manager.SetSubscriberPolicy, dhcpv6.Server.sendResponse, allocator.PoolAllocator.Release: trusted frames (kernel maps / sockets / the external allocator's own tables)",
 			"radius.Client.Authenticate (oracle, C04), radius.Client.SendAccounting (C08), nat.Manager.AllocateNAT (C10): contracts verified under those properties",
